@@ -114,6 +114,15 @@ impl<F: WithSmallOrderMulGroup<3> + Ord + Hash> Argument<F> {
             &compressed_table_expression,
         )?;
 
+        #[cfg(feature = "verif-hooks")]
+        {
+            use crate::plonk::verif_hooks::on_argument_vector;
+            on_argument_vector("lookup_input", &compressed_input_expression);
+            on_argument_vector("lookup_table", &compressed_table_expression);
+            on_argument_vector("lookup_permuted_input", &permuted_input_expression);
+            on_argument_vector("lookup_permuted_table", &permuted_table_expression);
+        }
+
         // Closure to construct commitment to vector of values
         let commit_values = |values: &Polynomial<F, LagrangeCoeff>| {
             let poly = pk.vk.domain.lagrange_to_coeff(values.clone());
@@ -241,6 +250,9 @@ impl<F: WithSmallOrderMulGroup<3>> Permuted<F> {
             .collect::<Vec<_>>();
         assert_eq!(z.len(), pk.vk.n() as usize);
         let z = pk.vk.domain.lagrange_from_vec(z);
+
+        #[cfg(feature = "verif-hooks")]
+        crate::plonk::verif_hooks::on_argument_vector("lookup_z", &z);
 
         #[cfg(debug_assertions)]
         // This test works only with intermediate representations in this method.
